@@ -11,7 +11,7 @@ EXPLANATION = (
     "R13.1b ShortFlags::new builds the CharIndices from the valid prefix of the same `inner` it stores. "
     "R13.2 encapsulation witnesses (compile_fail doctests in /verif/witness, thorough tier). R13.3 sibling literals: "
     "is_long/to_long test `--`, is_short/to_short `-` then `--`, is_escape `--`, is_stdio `-`; to_long splits at the first "
-    "`=` (split_once -> find, never rfind). R13.4 PANIC over every clap_lex body. NOT decided: byte-for-byte "
+    "`=` (split_once -> find, never rfind). R13.4 PANIC over every clap_lex body. R13.5 next_value_os exhausts the iterator on every returning path. R13.6 the non-UTF-8 fallback of to_long/to_value returns the very string whose conversion failed. NOT decided: byte-for-byte "
     "re-assembly for all inputs, the language of is_number."
 )
 TRUSTED = ["rustc MIR", "clapfacts", "lib/panics.py", "audit/panic.tsv", "std: char_indices/valid_up_to/str::find return char boundaries"]
@@ -114,6 +114,29 @@ def run(ctx):
     fd = fx.body("<std::ffi::os_str::OsStr as clap_lex::ext::OsStrExt>::find")
     res.check(bool(fd.calls_to(r"Iterator>?::find$")) and not fd.calls_to(r"rfind|rposition|::rev$"), "R13.3", "find-first", fd.where(), "find scans 0..=len-needle.len() forward",
               "OsStrExt::find no longer returns the first match")
+
+    # ---- R13.5 next_value_os exhausts the iterator: every path that returns Some clears invalid_suffix, and the
+    # valid-prefix path also resets utf8_prefix (so that `remaining value` = exactly the unread bytes, once)
+    nv = fx.body("clap_lex::ShortFlags::next_value_os")
+    somes = [i for i, j, s in nv.stmts() if s["k"] == "assign" and s["place"] == 0 and s["rv"]["k"] == "agg" and s["rv"].get("variant") == "Some"]
+    res.floor("R13.5", "Some returns in next_value_os", len(somes), 2)
+    wsuf = [i for i, s in writes_field(nv, "invalid_suffix") if (s["rv"]["k"] == "agg" and s["rv"].get("variant") == "None") or "None" in (agg_variants(nv, s["rv"]["op"]) if s["rv"]["k"] == "use" else set())]
+    for k, i in enumerate(somes):
+        ok = any(nv.block_dominates(w, i) for w in wsuf)
+        res.check(ok, "R13.5", "value-exhausts|%d" % k, "%s bb%d" % (nv.where(), i), "invalid_suffix cleared before returning the remaining value",
+                  "next_value_os returns the remaining value on a path that leaves invalid_suffix queued: a later call yields the non-UTF-8 tail again")
+    wpre = writes_field(nv, "utf8_prefix")
+    res.check(len(wpre) >= 1, "R13.5", "prefix-reset", nv.where(), "utf8_prefix reset on the valid-prefix path", "next_value_os no longer resets utf8_prefix")
+    # ---- R13.6 `x.to_str().ok_or(x)`: the Err payload is the very string whose conversion failed
+    for fn_ in ("to_long", "to_value"):
+        b = fx.body("clap_lex::ParsedArg::" + fn_)
+        oo = b.calls_to(r"Option::ok_or$")
+        res.floor("R13.6", "ok_or in " + fn_, len(oo), 1)
+        for c in oo:
+            a0, a1 = expr(b, c.args[0]), expr(b, c.args[1])
+            m = re.fullmatch(r"to_str\((.*)\)", a0)
+            res.check(m is not None and m.group(1) == a1, "R13.6", "err-payload-is-input|" + fn_, c.where(), "to_str(x).ok_or(x) with the same x (%s)" % a1[:50],
+                      "%s: the non-UTF-8 fallback returns %s although the string that failed to convert is %s (decomposition no longer re-assembles)" % (fn_, a1[:60], a0[:60]))
 
     # ---- R13.4 PANIC
     inv = panics.inventory(fx, cl.bodies)
